@@ -14,6 +14,7 @@ import JV.Drv.JsonPath
 import JV.Drv.JMESPath
 import JV.Drv.Csv
 import JV.Drv.Typed
+import JV.Drv.JsonSchema
 open JV Drv
 
 def dispatch (line : String) : String :=
@@ -31,6 +32,7 @@ def dispatch (line : String) : String :=
   | "jm" :: rest => jmLine rest
   | "csvm" :: rest => csvmLine rest
   | "ty" :: rest => tyLine rest
+  | "js" :: rest => jsLine rest
   | [] => ""
   | _ => "bad-op"
 
